@@ -36,6 +36,7 @@ class AbstractDenseTimeOnlineInterpreter(AbstractOnlineInterpreter, DenseTimeInt
         rob = rob[len(rob) - 1]
 
         self.ast.results = self.updateVisitor.results
+        self.updateVisitor.constants_sent = True
 
         out = self.ast.var_object_dict[self.ast.out_var]
         if self.ast.out_var_field:
@@ -49,6 +50,11 @@ class AbstractDenseTimeOnlineInterpreter(AbstractOnlineInterpreter, DenseTimeInt
         # the dense-time operations have no reset logic of their own:
         # construct them anew, as set_ast does for a fresh monitor
         self.set_ast(self.ast)
+
+    def set_ast(self, ast):
+        super(AbstractDenseTimeOnlineInterpreter, self).set_ast(ast)
+        # the new operations have not seen the constant signals yet
+        self.updateVisitor.constants_sent = False
 
     def update_final(self, dataset):
         # check ast exists
@@ -74,6 +80,12 @@ class AbstractDenseTimeOnlineInterpreter(AbstractOnlineInterpreter, DenseTimeInt
                     self.online_operator_dict[var_name].sample = var_object
 
 class DenseTimeOnlineUpdateVisitor(AbstractOnlineUpdateVisitor):
+    def __init__(self):
+        super(DenseTimeOnlineUpdateVisitor, self).__init__()
+        # a constant signal [[0, c], [inf, c]] is complete: the operations get it in the
+        # first update only (handing it over again appended it to their buffers a second time)
+        self.constants_sent = False
+
     def visitVariable(self, node, online_operator_dict, var_object_dict):
         vals = var_object_dict[node.var]
         if node.field:  #TODO Tom did not understand this line.
@@ -85,6 +97,8 @@ class DenseTimeOnlineUpdateVisitor(AbstractOnlineUpdateVisitor):
         return sample_return
 
     def visitConstant(self, node, online_operator_dict, var_object_dict):
+        if self.constants_sent:
+            return []
         sample_return = [[0, node.val], [float("inf"), node.val]]
         return sample_return
 
